@@ -36,12 +36,12 @@ OBLIGATIONS += [
 # leaf kernels of the in-place block-merge path, entered directly
 for kern, kname in ((1, 'MergeExternal'), (2, 'MergeInPlace'), (3, 'MergeInternal')):
     OBLIGATIONS.append(dict(
-        name='kern_%s_3x3' % kname, src='h_kern.c', defs=['KERN=%d' % kern, 'NA=3', 'NB=3'], units=['src/instant.c'], incl=['src/event.c'], replay_units='all',
+        name='kern_%s_2x2' % kname, src='h_kern.c', defs=['KERN=%d' % kern, 'NA=2', 'NB=2'], units=['src/instant.c'], incl=['src/event.c'], replay_units='all',
         unwind=8, unwindset={'memcpy.*': 52, 'memmove.*': 33, 'memset.*': 4}, checks=['--bounds-check', '--pointer-check'], solver='cadical', timeout=900, mem_gb=16,
         stubs=['word-wise memcpy (harness/common/libc_models.h)'],
         enc=[kname, 'BinaryFirst', 'BinaryLast', 'Rotate', 'Reverse', 'BlockSwap'], sym='run lengths 1..3 each and every key (8-value domain with all-day/all-second ties)',
-        bounds='two adjacent sorted runs of <= 3 events each', outside='longer runs; the block selection logic of WikiSort above 1024 elements'))
+        bounds='two adjacent sorted runs of <= 2 events each', outside='longer runs (3x3 in the thorough tier); the block selection logic of WikiSort above 1024 elements'))
     OBLIGATIONS.append(dict(
-        name='kern_%s_5x5' % kname, src='h_kern.c', defs=['KERN=%d' % kern, 'NA=5', 'NB=5'], units=['src/instant.c'], incl=['src/event.c'], replay_units='all',
+        name='kern_%s_3x3' % kname, src='h_kern.c', defs=['KERN=%d' % kern, 'NA=3', 'NB=3'], units=['src/instant.c'], incl=['src/event.c'], replay_units='all',
         unwind=12, unwindset={'memcpy.*': 52, 'memmove.*': 33, 'memset.*': 4}, checks=['--bounds-check', '--pointer-check'], solver='cadical', timeout=3000, mem_gb=24, tiers=('thorough',),
-        enc=[kname, 'BinaryFirst', 'BinaryLast', 'Rotate'], sym='run lengths 1..5 each and every key', bounds='two adjacent sorted runs of <= 5 events each'))
+        enc=[kname, 'BinaryFirst', 'BinaryLast', 'Rotate'], sym='run lengths 1..3 each and every key', bounds='two adjacent sorted runs of <= 3 events each'))
